@@ -339,6 +339,6 @@ func c05EnumTable(size, shard, nshards int, emit func(c05Case)) {
 
 func init() {
 	rule := "non-trivial = the event has at least one key (top-level or content) that the version's algorithm removes and at least one content key it keeps; distinct = distinct Case JSON"
-	vfRapid("C05/redact", rule, 2000, 50000, 16, c05Gen, c05Check)
+	vfRapid("C05/redact", rule, 2000, 160000, 16, c05Gen, c05Check)
 	vfEnum("C05/keep-list-table", rule+"; complete table: 16 versions x 9 event types x (all listed keys present | each listed content key alone | each listed top-level key alone)", 1, 1, 4, c05EnumTable, c05Check)
 }
